@@ -28,4 +28,23 @@ PROPS = {
         assumptions=["index-map oracle uses 128-bit Euclidean remainders; probe a_i=i+1 is injective so one probe "
                      "determines the signed permutation", ASAN_NOTE],
     ),
+    "C05": dict(
+        runs=std(),
+        rule=("case = one call of a normalisation entry point (entry, N, k, res_size, a_size, strides, operand family, "
+              "in-place flag, range triple, dispatch) or one exhaustive window / primitive batch; distinct by descriptor "
+              "hash; non-trivial when at least one inter-limb carry is non-zero (digit differs from the isolated digit)"),
+        require={"all": ["coefficients_checked", "primitive_values_checked", "exhaustive_limb_combinations",
+                         "cases_with_interlimb_carry"]},
+        assumptions=["digit oracle: 1024-bit two's-complement integers, centred remainders from the least significant end",
+                     "carry_in of the primitive restricted to |c| < 2^(63-k) (digit + carry cannot overflow int64)", ASAN_NOTE],
+    ),
+    "C08": dict(
+        runs=std(),
+        rule=("case = one call (operation, level module/kernel, module type, dispatch, N, res/a/b limb counts, stride "
+              "choices, extra-limb flag); distinct by descriptor hash; non-trivial when res_size >= 1 and at least one "
+              "source limb is used"),
+        require={"all": ["limbs_compared", "dispatch:native", "dispatch:generic", "dispatch:kernel-avx", "dispatch:kernel-ref"]},
+        assumptions=["per-limb definition evaluated by the harness (missing limb = 0)",
+                     "stride padding and guard bands are ASan-poisoned and carry canaries; inputs are byte-snapshotted", ASAN_NOTE],
+    ),
 }
